@@ -522,10 +522,20 @@ fn report(c: &Case, f: &Fail, order: u64, rep: &Report) {
 
 pub fn run(opts: &Opts, rep: &Report) {
     let tier = tier_of(opts);
-    let budget = Budget::new(opts.budget_s);
     let mut specs = init_from_input_systems();
     specs.extend(system_family(tier, true));
+    // every two-operator term as the root of a system of its own (last: a capped run cuts these first)
+    // (run as a second pass so that a capped run completes the families above first; quick: every 16th term of the
+    // universe [1,2], the residue chosen by the seed, so that repeated quick runs walk through the whole set)
+    let n_family = specs.len();
+    let t2r = if tier.is_thorough() { t2_root_systems(&[vec![1, 2], vec![1, 4], vec![2, 3]], &[(1, 2)]) } else { t2_root_systems(&[vec![1, 2]], &[(1, 2)]) };
+    rep.add("t2_root_systems_in_universe", t2r.len() as u64);
+    let stride = if tier.is_thorough() { 1 } else { 16 };
+    let t2r: Vec<SysSpec> = t2r.into_iter().enumerate().filter(|(i, _)| (*i as u64) % stride == opts.seed % stride).map(|(_, s)| s).collect();
+    rep.add("t2_root_systems", t2r.len() as u64);
+    specs.extend(t2r);
     rep.add("systems", specs.len() as u64);
+    let budget = Budget::new(opts.budget_s);
     let steps = if tier.is_thorough() { SIM_STEPS_THOROUGH } else { SIM_STEPS_QUICK };
     rep.note("lockstep_input_sequence_length", json!(steps));
     // oracle-side vacuity: the family must contain what the property quantifies over
@@ -538,7 +548,7 @@ pub fn run(opts: &Opts, rep: &Report) {
     let capped = AtomicBool::new(false);
     let skipped = AtomicU64::new(0);
     let failing: Collector<(Case, Fail)> = Collector::default();
-    specs.par_iter().enumerate().for_each(|(idx, spec)| {
+    let do_spec = |(idx, spec): (usize, &SysSpec)| {
         if budget.exceeded() {
             capped.store(true, Ordering::Relaxed);
             skipped.fetch_add(1, Ordering::Relaxed);
@@ -587,7 +597,9 @@ pub fn run(opts: &Opts, rep: &Report) {
         }
         rep.merge_counts(&counts);
         rep.distinct_hashes(&nontrivial);
-    });
+    };
+    specs[..n_family].par_iter().enumerate().for_each(|x| do_spec(x));
+    specs[n_family..].par_iter().enumerate().for_each(|(i, s)| do_spec((i + n_family, s)));
     let failing = failing.drain();
     failing.par_iter().for_each(|(order, (c, f))| report(c, f, *order, rep));
     if capped.load(Ordering::Relaxed) {
